@@ -1507,8 +1507,12 @@ class SocketStream(abc.SocketStream):
                 pass
 
             self._transport.close()
-            await sleep(0)
-            self._transport.abort()
+            try:
+                await sleep(0)
+            finally:
+                # Also when cancelled (aclose_forcefully()): close() alone waits for
+                # the write buffer to drain, which may never happen
+                self._transport.abort()
 
 
 class _RawSocketMixin:
